@@ -5,7 +5,8 @@ CONSTANTS
   T = 10
   D = 1
   MaxEvents = 3
-  MaxFails = 2
+  MaxFails = 0
+  Extra = "any"
   Backoff = TRUE
   Closed = TRUE
   ObserveCb = TRUE
